@@ -365,7 +365,10 @@ impl Exec {
         match op {
             Op::StartFen { text } => self.start_fen(text),
             Op::StartBuilder { placement, stm, castle, ep_file } => self.start_builder(placement, *stm, *castle, *ep_file),
-            Op::ClientAct { c, act } => self.client_act(Node::Client(*c), act),
+            Op::ClientAct { c, act } => match *c {
+                0 | 1 => self.client_act(Node::Client(*c), act),
+                _ => self.client_act(Node::Spectator, act),
+            },
             Op::ArbiterAct { act } => self.client_act(Node::Arbiter, act),
             Op::Corrupt { id, how } => {
                 self.corrupt(*id, how);
@@ -378,6 +381,9 @@ impl Exec {
             }
             Op::RestartServer => self.restart_server(),
             Op::CrashClient { c } => {
+                if *c > 1 {
+                    return Ok(Flow::Go);
+                }
                 let r = &mut self.cl[*c];
                 r.up = false;
                 r.board = None;
@@ -387,6 +393,9 @@ impl Exec {
                 Ok(Flow::Go)
             }
             Op::RestartClient { c } => {
+                if *c > 1 {
+                    return Ok(Flow::Go);
+                }
                 let r = &mut self.cl[*c];
                 if !r.up {
                     r.up = true;
@@ -698,6 +707,7 @@ impl Exec {
         };
         let (epoch, seq) = match from {
             Node::Client(c) => (self.cl[c].epoch, self.cl[c].seq),
+            Node::Spectator => (self.spec.epoch, self.spec.seq),
             _ => (0, 0),
         };
         let id = self.new_msg_id();
@@ -888,6 +898,10 @@ impl Exec {
             MKind::Act(a) => a.clone(),
             _ => return Ok(Flow::Go),
         };
+        if cact == CAct::SnapReq {
+            self.snapshot_to(m.from);
+            return Ok(Flow::Go);
+        }
         if m.seq < self.srv.model.as_ref().unwrap().log.len() as u32 && m.from != Node::Arbiter {
             self.stats.cnt("reach.action_from_stale_replica");
         }
@@ -898,10 +912,7 @@ impl Exec {
             self.stats.cnt("reach.corrupted_action_delivered");
         }
         let act: Option<Act> = match &cact {
-            CAct::SnapReq => {
-                self.snapshot_to(m.from);
-                return Ok(Flow::Go);
-            }
+            CAct::SnapReq => None,
             CAct::Move { mv, enc } => match self.decode_move(&m, *mv, enc)? {
                 Some(v) => Some(Act::Move(mv_from_lib(v))),
                 None => None,
@@ -1369,7 +1380,7 @@ impl Exec {
                             if Some(b.get_hash()) != h {
                                 usable = false;
                             } else {
-                                if b != self.srv.start_board.unwrap() && (self.on(9) || self.on(8)) {
+                                if b != self.srv.start_board.unwrap() && self.on(9) {
                                     return Err(viol(
                                         "C09",
                                         "undetected_corruption/journal_start",
@@ -1418,6 +1429,9 @@ impl Exec {
                 Some(a) => a,
                 None => break,
             };
+            if i >= gm_full.log.len() {
+                break;
+            }
             let intact = *raw == format!("ACT {} {} {:016x}", i + 1, act_text(gm_full.log[i]), h).into_bytes()
                 && act == gm_full.log[i];
             // verify the fingerprint BEFORE applying (Game has no undo)
@@ -1439,7 +1453,7 @@ impl Exec {
                 _ => cur.get_hash(),
             };
             if predicted != h {
-                if intact && (self.on(8) || self.on(10)) {
+                if intact && self.on(8) {
                     return Err(viol(
                         "C08",
                         "hash/recovery_replay_differs_from_recorded",
@@ -1450,7 +1464,7 @@ impl Exec {
             }
             if act != gm_full.log[i] {
                 // a rotted record that still passes the fingerprint: the hash failed to separate
-                if self.on(9) || self.on(8) {
+                if self.on(9) {
                     return Err(viol(
                         "C09",
                         "undetected_corruption/journal_record",
